@@ -62,6 +62,45 @@ struct Codec<E24>
   static long dec(const E24 &e) { return (e.b == 3 * e.a + 1 && e.c == ~e.a) ? (long)e.a : -1; }
 };
 
+// ------------------------------------------------------------------ an instrumented, NON-trivially-copyable element type
+// Every live Trk is registered by address, knows its own address and owns a heap cell holding its value (deep copy).
+// A bitwise duplicate (memcpy of the object representation) is recognised: its `self` is the source's address; it shares
+// the heap cell with the source, so destroying both is a double free under ASan.  ownbad: some element was observed /
+// assigned / destroyed that is not a properly constructed live object.
+#include <set>
+#include <unistd.h>
+static std::set<const void *> &trkLive() { static std::set<const void *> s; return s; }
+static bool ownbad = false;
+static long trkCopies = 0;
+struct Trk
+{
+  const Trk *self;
+  long *cell;
+  Trk() : self(this), cell(new long(0)) { trkLive().insert(this); }
+  explicit Trk(long v) : self(this), cell(new long(v)) { trkLive().insert(this); }
+  Trk(const Trk &o) : self(this), cell(new long(o.ok() ? *o.cell : -1)) { ++trkCopies; trkLive().insert(this); if (!o.ok()) ownbad = true; }
+  Trk &operator=(const Trk &o)
+  {
+    ++trkCopies;
+    if (!ok() || !o.ok()) { ownbad = true; return *this; }
+    *cell = *o.cell;
+    return *this;
+  }
+  ~Trk()
+  {
+    if (!ok()) { ownbad = true; return; }      // not ours to release: do not free somebody else's cell
+    trkLive().erase(this);
+    delete cell;
+  }
+  bool ok() const { return self == this && trkLive().count(this) != 0; }
+};
+template <>
+struct Codec<Trk>
+{
+  static Trk enc(long v) { return Trk(v); }
+  static long dec(const Trk &t) { if (!t.ok()) { ownbad = true; return -1; } return *t.cell; }
+};
+
 static std::vector<std::string> split(const std::string &s, char d)
 {
   std::vector<std::string> r;
@@ -553,8 +592,9 @@ static std::string runH(const std::vector<std::string> &ops)
   bool first = true;
   for (auto &tok : ops) {
     bool ok = m.step(tok);
-    out << (first ? "" : " ; ") << (ok ? "ok|" : "skip|") << m.dump() << (retbad ? "!RET" : "");
+    out << (first ? "" : " ; ") << (ok ? "ok|" : "skip|") << m.dump() << (retbad ? "!RET" : "") << (ownbad ? "!OWN" : "");
     retbad = false;
+    ownbad = false;
     first = false;
   }
   return out.str();
@@ -618,9 +658,22 @@ static std::string runD(size_t off, size_t stride, const std::vector<long> &byte
   return o.str();
 }
 
+// what FixedArray<T> does for a non-trivially-copyable T (it memcpy's): reported, not exercised in the histories
+static int probeFixed()
+{
+  std::vector<Trk> v;
+  v.emplace_back(7); v.emplace_back(8);
+  FixedArray<Trk> *f = new FixedArray<Trk>(v);
+  bool bitwise = !(*f)[0].ok() || (*f)[0].cell == v[0].cell;
+  std::cout << (bitwise ? "FixedArray<Trk>(vector&): BITWISE copies (elements share the source's heap cells; not live objects)"
+                        : "FixedArray<Trk>(vector&): element-wise copies") << std::endl;
+  _exit(0);      // no destructors: they would double-free
+}
+
 int main(int argc, char **argv)
 {
   std::string mode = argc > 1 ? argv[1] : "i32";
+  if (mode == "probeF") return probeFixed();
   std::string line;
   while (std::getline(std::cin, line)) {
     std::vector<std::string> toks;
@@ -628,7 +681,13 @@ int main(int argc, char **argv)
     std::string res;
     if (!toks.empty() && toks[0] == "H") {
       std::vector<std::string> ops(toks.begin() + 1, toks.end());
-      if (mode == "u8") res = runH<uint8_t>(ops);
+      if (mode == "trk") {
+        res = runH<Trk>(ops);            // ArrayView / OwnedArray histories only (see props/C11/check.py)
+        if (ownbad) res += "!OWN";       // a destructor of the torn-down machine complained
+        if (!trkLive().empty()) { res += "!LEAK"; trkLive().clear(); }
+        ownbad = false;
+      }
+      else if (mode == "u8") res = runH<uint8_t>(ops);
       else if (mode == "s24") res = runH<E24>(ops);
       else res = runH<int>(ops);
     } else if (toks.size() == 6 && toks[0] == "D") {
